@@ -84,9 +84,15 @@ class Repartition(Expr):
                 original_divisions = divisions = pd.Series(
                     self.frame.divisions
                 ).drop_duplicates()
-                if self.frame.known_divisions and (
-                    is_datetime64_any_dtype(divisions.dtype)
-                    or is_numeric_dtype(divisions.dtype)
+                # Null divisions (set_index of a frame without rows reports
+                # (nan, nan)) can neither be interpolated nor compared
+                if (
+                    self.frame.known_divisions
+                    and not divisions.isna().any()
+                    and (
+                        is_datetime64_any_dtype(divisions.dtype)
+                        or is_numeric_dtype(divisions.dtype)
+                    )
                 ):
                     npartitions = self.new_partitions
                     df = self.frame
